@@ -129,4 +129,17 @@ CHECKS["C14"] = {
   "technique": "Coq proof (non-interference by induction over operation histories on a provenance semantics) + relational model-vs-code correspondence by vm_compute on hashed arrays",
 }
 
+CHECKS["C03"] = {
+  "text": "Machine-checked theorems (coq/props/C03.v, closed under the global context) about an executable model of graphflow/ops/Model.__init__. Kahn's algorithm with the deque-as-stack discipline returns a permutation "
+          "of the nodes with every edge forward, rejects every graph with a directed cycle and accepts every rankable graph, for every order of the entry set and of the edge list. Entries and exits are exactly the nodes "
+          "without predecessors / successors. link builds union + outputs x inputs and merge builds the union, nothing twice. Concat insertion gives every multi-parent non-Concat node exactly one fresh Concat parent whose "
+          "parents are the former ones, each once, and changes nothing else. Merging is commutative (explicit renaming of Concat ids, accepted together) and idempotent. Chaining associativity is proved for 216 operand "
+          "triples by computation (general statement kept as a Definition). The model is tied to the code on every run: all digraphs on 2-3 (thorough: <=4 and a 5-node sample) nodes built both directly and through "
+          ">>/&/&=, plus random expressions. Everything but the execution order is compared as sets; the observed order is checked to be topological. The open finding fanin:predecessor-delivered-twice is mirrored by "
+          "the model (C03_fanin_twice_refuted).",
+  "note": "Trusted: Coq kernel; coq/model/Graph.v as a rendering of ops.py/graphflow.py/model.py (abstract ids for object identity, isc table for type(node), observed child->Concat tables for names); tools/props/c03.py; "
+          "networkx in the oracle only. Not decided by proof: general chain associativity (bounded), FrozenModel / dimension-mismatch errors, explicit node lists with duplicates.",
+  "technique": "Coq proof (invariant induction over Kahn steps; list/set reasoning for link/merge/concat insertion; vm_compute for the bounded associativity sweep and the refutation witness) + exhaustive small-digraph and random-expression model-vs-code correspondence by vm_compute",
+}
+
 NOT_YET = {}
